@@ -301,6 +301,9 @@ class Job:
         # These are the arguments (args, kwargs) submitted to executors.
         self.args: Optional[tuple[tuple, dict]] = None
 
+        # The arguments as preprocessed on the job's first entry (Handles are forked once per job).
+        self.preprocessed_args: Optional[tuple[tuple, dict]] = None
+
         # The hash of the evaluated and preprocessed arguments.
         self.args_hash: Optional[str] = None
 
@@ -558,6 +561,7 @@ class Job:
         self.expr = None
         self.eval_args = None
         self.args = None
+        self.preprocessed_args = None
         self.result_promise = None  # ty: ignore[invalid-assignment]
         self._context = None
         self.job_tags.clear()
@@ -2385,7 +2389,12 @@ class Scheduler:
     def _preprocess_args(self, job: Job, args: tuple, kwargs: dict) -> Any:
         """
         Preprocess arguments for a Task before execution.
+
+        Arguments are preprocessed once per job: a job that re-enters `_exec_job_main_thread`
+        after waiting for resource limits keeps the arguments (and Handle forks) of its first entry.
         """
+        if job.preprocessed_args is not None:
+            return job.preprocessed_args
 
         def preprocess_value(value):
             if isinstance(value, Handle):
@@ -2407,7 +2416,8 @@ class Scheduler:
 
             return value2
 
-        return map_nested_value(preprocess_value, (args, kwargs))
+        job.preprocessed_args = map_nested_value(preprocess_value, (args, kwargs))
+        return job.preprocessed_args
 
     def _postprocess_result(self, job: Job, result: Any, pre_call_hash: str) -> Any:
         """
